@@ -52,6 +52,8 @@ CONSTANTS NA,     \* associations (one viewer each)
           NH,     \* simulators
           Dyn,    \* TRUE: regions can be announced after login
           NG,     \* region handles 1..NG (an announcement names a handle, or none: 0)
+          Tcp,    \* TRUE: the SOCKS control connections of the viewers are part of the model (Associate,
+                  \* CloseControl); FALSE: every viewer's association exists from the start and stays
           GMode   \* which announcements the bounded model explores: "addr" every address has its own
                   \* handle (handle = address number, no region ever moves); "any" every handle 1..NG at
                   \* every address; "any0" also announcements without a handle
@@ -66,7 +68,9 @@ Handles == 0..NG                 \* 0: the announcement carried no handle
 LoginHandle(s) == IF GMode = "addr" THEN LoginSim(s) ELSE 1
 AnnHandles(h) == IF GMode = "addr" THEN {h} ELSE IF GMode = "any0" THEN Handles ELSE 1..NG
 
-VARIABLES st,     \* [Sess -> {"absent","pending","claimed"}]
+VARIABLES ctl,    \* [Assoc -> {"none","open","closed"}]  SOCKS control (TCP) connection of the viewer: the UDP
+                  \* association of viewer a exists exactly while ctl[a] = "open"
+          st,     \* [Sess -> {"absent","pending","claimed","gone"}]
           regs,   \* [Sess -> SUBSET Sims]          registered regions (circuit addresses)
           sess,   \* [Assoc -> Sess \cup {NoSess}]  session held by the association
           circ,   \* [Sess -> [Sims -> {"none","open","dead"}]]
@@ -76,9 +80,9 @@ VARIABLES st,     \* [Sess -> {"absent","pending","claimed"}]
           ev,     \* the last event (ghost)
           out     \* what the last event must hand to the transport (ghost)
 
-pvars == <<st, regs, sess, circ>>
-MView == <<st, regs, sess, circ, hnd>>
-vars == <<st, regs, sess, circ, hnd, ev, out>>
+pvars == <<ctl, st, regs, sess, circ>>
+MView == <<ctl, st, regs, sess, circ, hnd>>
+vars == <<ctl, st, regs, sess, circ, hnd, ev, out>>
 
 \* A datagram handed to the transport of association via: to > 0 simulator `to`, raw; to < 0 the
 \* viewer of association -to, prefixed with the SOCKS header naming simulator hdr.
@@ -101,7 +105,8 @@ HKinds == {"msg", "ucc", "spoof", "banned", "badbody"} \cup Kill \cup LludpBad
 \*         far host is no registered region of that session (no circuit can be opened then)
 Ev(n, a, h, k, s, ch) == [n |-> n, a |-> a, h |-> h, k |-> k, s |-> s, ch |-> ch]
 
-Init == /\ st = [s \in Sess |-> "absent"]
+Init == /\ ctl = [a \in Assoc |-> IF Tcp THEN "none" ELSE "open"]
+        /\ st = [s \in Sess |-> "absent"]
         /\ regs = [s \in Sess |-> {}]
         /\ sess = [a \in Assoc |-> NoSess]
         /\ circ = [s \in Sess |-> [h \in Sims |-> "none"]]
@@ -116,7 +121,26 @@ Login(s) == /\ st[s] = "absent"
             /\ regs' = [regs EXCEPT ![s] = {LoginSim(s)}]
             /\ hnd' = [hnd EXCEPT ![s][LoginSim(s)] = LoginHandle(s)]
             /\ ev' = Ev("Login", 0, 0, "", s, FALSE) /\ out' = NoOut
-            /\ UNCHANGED <<sess, circ>>
+            /\ UNCHANGED <<ctl, sess, circ>>
+(* the viewer of association a opens its SOCKS control connection and asks for a UDP association;   *)
+(* later that connection ends (EOF / reset).  The association, and the session it holds, belong to  *)
+(* that connection and end with it -- and nothing else does: every other viewer's association,      *)
+(* session and circuits are exactly what they were (CloseRule, OpenStaysDeliverable).               *)
+Associate(a) == /\ Tcp /\ ctl[a] = "none"
+                /\ ctl' = [ctl EXCEPT ![a] = "open"]
+                /\ ev' = Ev("Assoc", a, 0, "", 0, FALSE) /\ out' = NoOut
+                /\ UNCHANGED <<st, regs, sess, circ, hnd>>
+CloseControl(a) ==
+    /\ Tcp /\ ctl[a] = "open"
+    /\ ctl' = [ctl EXCEPT ![a] = "closed"]
+    /\ sess' = [sess EXCEPT ![a] = NoSess]
+    /\ LET s == sess[a] IN
+         IF s = NoSess THEN UNCHANGED <<st, regs, circ, hnd>>
+         ELSE /\ st' = [st EXCEPT ![s] = "gone"]
+              /\ regs' = [regs EXCEPT ![s] = {}]
+              /\ circ' = [circ EXCEPT ![s] = [h \in Sims |-> "none"]]
+              /\ hnd' = [hnd EXCEPT ![s] = [h \in Sims |-> 0]]
+    /\ ev' = Ev("Close", a, 0, "", 0, FALSE) /\ out' = NoOut
 \* Region handle g (0: none) is announced at simulator address h.  Routing is by address: h becomes
 \* (or stays) a registered region and NOTHING else changes -- whether g is new, is h's handle already,
 \* or is the handle of a region registered at ANOTHER address (the region "moved") whose circuit may be
@@ -126,7 +150,7 @@ Login(s) == /\ st[s] = "absent"
 \* The event record carries g in field a.
 Moved(s, g, h) == IF g = 0 THEN {} ELSE {x \in regs[s] \ {h} : hnd[s][x] = g}
 Announce(s, g, h, ch) ==
-    /\ Dyn /\ st[s] # "absent"
+    /\ Dyn /\ st[s] \in {"pending", "claimed"}
     /\ ch => (h \notin regs[s] /\ Moved(s, g, h) # {})
     /\ LET old == IF ch THEN Moved(s, g, h) ELSE {}
        IN /\ regs' = [regs EXCEPT ![s] = (@ \ old) \cup {h}]
@@ -134,7 +158,7 @@ Announce(s, g, h, ch) ==
           /\ hnd' = [hnd EXCEPT ![s] = [x \in Sims |-> IF x = h THEN (IF g = 0 THEN @[x] ELSE g)
                                                       ELSE IF x \in old THEN 0 ELSE @[x]]]
     /\ ev' = Ev("Reg", g, h, "", s, ch) /\ out' = NoOut
-    /\ UNCHANGED <<st, sess>>
+    /\ UNCHANGED <<ctl, st, sess>>
 
 Discard == out' = NoOut /\ UNCHANGED <<pvars, hnd>>
 
@@ -149,7 +173,7 @@ OnCircuit(a, h, k, dirn, ch) ==
     THEN /\ out' = [sends |-> <<IF dirn = "C" THEN ToSim(a, h) ELSE ToViewer(a, h)>>,
                     may |-> (circ[cs][h] = "dead" \/ k = "badbody" \/ (k = "banned" /\ dirn = "C"))]
          /\ circ' = IF k \in Kill /\ ch THEN [circ EXCEPT ![cs][h] = "dead"] ELSE circ
-         /\ UNCHANGED <<st, regs, sess, hnd>>
+         /\ UNCHANGED <<ctl, st, regs, sess, hnd>>
     ELSE Discard
 
 \* UseCircuitCode from the viewer, naming session s (NoSess: an ID no login produced)
@@ -159,7 +183,7 @@ UseCircuit(a, h, s, ch) ==
     IN IF cs = NoSess THEN Discard
        ELSE /\ sess' = [sess EXCEPT ![a] = cs]
             /\ st' = [st EXCEPT ![cs] = "claimed"]
-            /\ UNCHANGED <<regs, hnd>>
+            /\ UNCHANGED <<ctl, regs, hnd>>
             /\ IF h \in regs[cs]
                THEN /\ circ' = [circ EXCEPT ![cs][h] = "open"]
                     /\ out' = [sends |-> <<ToSim(a, h)>>, may |-> FALSE]
@@ -167,6 +191,7 @@ UseCircuit(a, h, s, ch) ==
 
 \* a datagram from the viewer of association a, SOCKS-addressed to far host h
 Client(a, h, k, s, ch) ==
+    /\ ctl[a] = "open"                                  \* a closed socket receives nothing
     /\ ev' = Ev("C", a, h, k, s, ch)
     /\ k = "ucc" => (sess[a] # NoSess => s = sess[a])   \* a viewer names its own session
     /\ k # "ucc" => s = NoSess
@@ -181,6 +206,7 @@ Client(a, h, k, s, ch) ==
 \* claims nothing.  "spoof": a stranger (not on the viewer's IP) sends what a viewer would send,
 \* a well-formed SOCKS5 UDP request for a simulator carrying a valid message.
 Host(a, h, k, s, ch) ==
+    /\ ctl[a] = "open"
     /\ ev' = Ev("H", a, h, k, s, ch)
     /\ k # "ucc" => s = NoSess
     /\ k = "spoof" => h = Unk
@@ -192,6 +218,7 @@ Far == Sims \cup {Unk}
 \* a viewer can also mis-address a datagram to a viewer's own address (0 - b: viewer of association b)
 CFar == Far \cup {0 - b : b \in Assoc}
 Next == \/ \E s \in Sess : Login(s)
+        \/ \E a \in Assoc : Associate(a) \/ CloseControl(a)
         \/ \E s \in Sess, h \in Sims, ch \in BOOLEAN : \E g \in AnnHandles(h) : Announce(s, g, h, ch)
         \/ \E a \in Assoc, h \in CFar, k \in CKinds \ {"ucc"}, ch \in BOOLEAN : Client(a, h, k, NoSess, ch)
         \/ \E a \in Assoc, h \in CFar, s \in Sess \cup {NoSess}, ch \in BOOLEAN : Client(a, h, "ucc", s, ch)
@@ -200,14 +227,16 @@ Next == \/ \E s \in Sess : Login(s)
 Spec == Init /\ [][Next]_vars
 
 (****************************** the property *******************************)
-TypeOK == /\ st \in [Sess -> {"absent", "pending", "claimed"}]
+TypeOK == /\ ctl \in [Assoc -> {"none", "open", "closed"}]
+          /\ st \in [Sess -> {"absent", "pending", "claimed", "gone"}]
           /\ regs \in [Sess -> SUBSET Sims]
           /\ sess \in [Assoc -> Sess \cup {NoSess}]
           /\ circ \in [Sess -> [Sims -> {"none", "open", "dead"}]]
           /\ hnd \in [Sess -> [Sims -> Handles]]
 
 \* a session is held by exactly one association from its claim on, by none before
-ClaimConsistent == /\ \A s \in Sess : (st[s] = "claimed") <=> (\E a \in Assoc : sess[a] = s)
+ClaimConsistent == /\ \A a \in Assoc : ctl[a] # "open" => sess[a] = NoSess
+                   /\ \A s \in Sess : (st[s] = "claimed") <=> (\E a \in Assoc : sess[a] = s)
                    /\ \A a, b \in Assoc : (a # b /\ sess[a] = sess[b]) => sess[a] = NoSess
 \* circuits exist only towards registered regions of claimed sessions
 CircuitsAnchored == \A s \in Sess, h \in Sims : circ[s][h] # "none" => (st[s] = "claimed" /\ h \in regs[s])
@@ -256,8 +285,16 @@ OnlyNamedChanges == [][(ev'.n \in {"C", "H"} /\ ~IsViewerUCC /\ ~(ev'.k \in Kill
 \* simulator or for its simulator is delivered exactly once.  The specification has no memory of far
 \* hosts that own no circuit (no far->near map), so no history of discards can make it say otherwise;
 \* B2 "address churn" runs hold the real code to exactly this.
-OpenStaysDeliverable == [][~((ev'.n \in {"C", "H"} /\ ev'.k \in Kill /\ ev'.ch) \/ (ev'.n = "Reg" /\ ev'.ch))
-                             => \A a \in Assoc, h \in Sims : IsOpen(a, h) => IsOpen(a, h)']_vars
+Exempt(a, h) == \/ (ev'.n \in {"C", "H"} /\ ev'.k \in Kill /\ ev'.ch /\ ev'.a = a /\ ev'.h = h)
+                \/ (ev'.n = "Reg" /\ ev'.ch /\ sess[a] = ev'.s /\ h # ev'.h /\ hnd[ev'.s][h] = ev'.a)
+                \/ (ev'.n = "Close" /\ ev'.a = a)
+OpenStaysDeliverable == [][\A a \in Assoc, h \in Sims : (IsOpen(a, h) /\ ~Exempt(a, h)) => IsOpen(a, h)']_vars
+\* the end of one viewer's control connection ends that viewer's association and session, nobody else's
+CloseRule == [][ev'.n = "Close" =>
+                  /\ ctl'[ev'.a] = "closed" /\ sess'[ev'.a] = NoSess /\ out' = NoOut
+                  /\ \A b \in Assoc \ {ev'.a} : ctl'[b] = ctl[b] /\ sess'[b] = sess[b]
+                  /\ \A s \in Sess \ {sess[ev'.a]} : st'[s] = st[s] /\ regs'[s] = regs[s] /\ circ'[s] = circ[s]
+                  /\ sess[ev'.a] # NoSess => st'[sess[ev'.a]] = "gone"]_vars
 \* an announcement registers its address and touches no circuit, whatever handle it names; the one
 \* exception (ch) only ever REMOVES regions known under the same handle at other addresses, circuit included
 AnnounceRule == [][ev'.n = "Reg" =>
